@@ -2,6 +2,7 @@ package main
 
 import (
 	"bufio"
+	"strconv"
 	"fmt"
 	"go/ast"
 	"go/constant"
@@ -44,7 +45,10 @@ type Clause struct {
 	err    error
 }
 
-var kwRe = regexp.MustCompile(`^(func|requires|ensures|loop|watch|lemma|trusted|noinline|inline|define|end)\b`)
+// assumedPure: value names (as produced by valueName) of callbacks assumed to have no effect.
+var assumedPure = map[string]string{}
+
+var kwRe = regexp.MustCompile(`^(func|requires|ensures|loop|watch|lemma|trusted|noinline|inline|define|assume-pure|end)\b`)
 
 type macro struct {
 	name   string
@@ -177,6 +181,11 @@ func parseContractFile(path, relpkg string) ([]*Contract, error) {
 		lastMacro = nil
 		rest := strings.TrimSpace(tb[len(m):])
 		switch m {
+		case "assume-pure":
+			// a function-valued field or variable whose calls have no effect on program state
+			// (user-supplied callbacks that the library treats as pure): an assumption, reported
+			assumedPure[rest] = path
+			last = nil
 		case "define":
 			mh := macroHead.FindStringSubmatch(rest)
 			if mh == nil {
@@ -280,6 +289,21 @@ func (P *Program) loadContracts(dir string) error {
 				continue
 			}
 			c.fn = fn
+			if prev := P.contracts[fn]; prev != nil {
+				// several files may contribute clauses for one function (one file per property)
+				prev.Requires = append(prev.Requires, c.Requires...)
+				prev.Ensures = append(prev.Ensures, c.Ensures...)
+				prev.Watch = append(prev.Watch, c.Watch...)
+				prev.Lemmas = append(prev.Lemmas, c.Lemmas...)
+				for k, v := range c.Loops {
+					prev.Loops[k] = append(prev.Loops[k], v...)
+				}
+				prev.Trusted = prev.Trusted || c.Trusted
+				prev.NoInline = prev.NoInline || c.NoInline
+				prev.Inline = prev.Inline || c.Inline
+				prev.macros = append(prev.macros, c.macros...)
+				continue
+			}
 			P.contracts[fn] = c
 			P.contractList = append(P.contractList, c)
 		}
@@ -502,6 +526,15 @@ func (P *Program) ghostScope(parent *types.Scope, pkg *types.Package, pos token.
 	mk("fresh", boolT, anyT)
 	mk("typeIs", boolT, anyT, strT)
 	mk("nonNilPayload", boolT, anyT)
+	mk("offsetOf", intT, anyT)
+	mk("sameArray", boolT, anyT, anyT)
+	mk("hasKey", boolT, anyT, anyT)
+	predU16 := types.NewSignatureType(nil, nil, nil, types.NewTuple(types.NewVar(0, nil, "k", types.Typ[types.Uint16])), types.NewTuple(types.NewVar(0, nil, "", boolT)), false)
+	predU32 := types.NewSignatureType(nil, nil, nil, types.NewTuple(types.NewVar(0, nil, "k", types.Typ[types.Uint32])), types.NewTuple(types.NewVar(0, nil, "", boolT)), false)
+	predU64 := types.NewSignatureType(nil, nil, nil, types.NewTuple(types.NewVar(0, nil, "k", u64T)), types.NewTuple(types.NewVar(0, nil, "", boolT)), false)
+	mk("forallU16", boolT, predU16)
+	mk("forallU32", boolT, predU32)
+	mk("forallU64", boolT, predU64)
 	// old is handled syntactically (rewritten to a parenthesised expression before checking)
 	if fn != nil {
 		res := fn.Signature.Results()
@@ -566,6 +599,9 @@ func (P *Program) prepare(cl *Clause, fn *ssa.Function, pos token.Pos) error {
 	return nil
 }
 
+// ghostAs records argAs/retAs placeholders (keyed by the ParenExpr that replaced them).
+var ghostAs map[ast.Expr][3]string
+
 func rewriteOld(e ast.Expr, set map[ast.Expr]bool) ast.Expr {
 	var rw func(n ast.Expr) ast.Expr
 	rw = func(n ast.Expr) ast.Expr {
@@ -574,6 +610,17 @@ func rewriteOld(e ast.Expr, set map[ast.Expr]bool) ast.Expr {
 			if id, ok := x.Fun.(*ast.Ident); ok && id.Name == "old" && len(x.Args) == 1 {
 				p := &ast.ParenExpr{Lparen: x.Lparen, X: rw(x.Args[0]), Rparen: x.Rparen}
 				set[p] = true
+				return p
+			}
+			// argAs("callee", k, e) / retAs("callee", k, e): the k-th argument/result of the last call,
+			// typed like the expression e (which is only type-checked, never evaluated)
+			if id, ok := x.Fun.(*ast.Ident); ok && (id.Name == "argAs" || id.Name == "retAs") && len(x.Args) == 3 {
+				p := &ast.ParenExpr{Lparen: x.Lparen, X: x.Args[2], Rparen: x.Rparen}
+				if ghostAs == nil {
+					ghostAs = map[ast.Expr][3]string{}
+				}
+				name, _ := strconv.Unquote(x.Args[0].(*ast.BasicLit).Value)
+				ghostAs[p] = [3]string{id.Name[:3], name, x.Args[1].(*ast.BasicLit).Value}
 				return p
 			}
 			x.Fun = rw(x.Fun)
@@ -706,6 +753,13 @@ func (e *specEnv) eval(x ast.Expr) Term {
 	vc := e.f.vc
 	switch n := x.(type) {
 	case *ast.ParenExpr:
+		if g, ok := ghostAs[n]; ok {
+			w := g[1]
+			if !e.f.vc.watch[w] {
+				unsup("spec: %q is used in a clause but not declared with 'watch'", w)
+			}
+			return e.st().get(fmt.Sprintf("G$%s$%s$%s", g[0], w, g[2]), tt.sortOf(e.typeOf(n.X)))
+		}
 		if e.oldSet[n] {
 			saved := e.inOld
 			e.inOld = true
@@ -1325,6 +1379,47 @@ func (e *specEnv) call(n *ast.CallExpr) Term {
 			case SBV64:
 				return mkEq(v, i64(0))
 			}
+		case "offsetOf":
+			return slOff(e.eval(n.Args[0]))
+		case "sameArray":
+			return mkEq(slObj(e.eval(n.Args[0])), slObj(e.eval(n.Args[1])))
+		case "hasKey":
+			m := e.eval(n.Args[0])
+			k := e.eval(n.Args[1])
+			mt, ok := e.typeOf(n.Args[0]).Underlying().(*types.Map)
+			if !ok {
+				unsup("spec: hasKey needs a map")
+			}
+			saved := e.f.st
+			e.f.st = e.st()
+			dn, _, _, ds, _, _, ks, _ := e.f.mapHeaps(mt)
+			dom := mkSelect(e.f.st.get(dn, ds), m, arraySort(ks, SBool))
+			e.f.st = saved
+			if k.Sort != ks {
+				if w, ok := ks.isBV(); ok {
+					k = bvResize(k, w, false)
+				}
+			}
+			return mkAnd(mkNot(mkEq(m, i64(0))), mkSelect(dom, k, SBool))
+		case "forallU16", "forallU32", "forallU64":
+			fl, ok := n.Args[0].(*ast.FuncLit)
+			if !ok || len(fl.Body.List) != 1 {
+				unsup("spec: %s needs a function literal with a single return", id.Name)
+			}
+			ret, ok := fl.Body.List[0].(*ast.ReturnStmt)
+			if !ok {
+				unsup("spec: quantifier body must be a return")
+			}
+			pid := fl.Type.Params.List[0].Names[0]
+			obj := e.info.Defs[pid]
+			w := map[string]int{"forallU16": 16, "forallU32": 32, "forallU64": 64}[id.Name]
+			vc.names["q"]++
+			bv := Term{fmt.Sprintf("q!%s%d", pid.Name, vc.names["q"]), bvSort(w)}
+			e.vars[obj] = bv
+			body := e.eval(ret.Results[0])
+			delete(e.vars, obj)
+			vc.hasQuant = true
+			return Term{fmt.Sprintf("(forall ((%s %s)) %s)", bv.S, bvSort(w), body.S), SBool}
 		case "nonNilPayload":
 			return mkNot(mkEq(ifVal(e.eval(n.Args[0])), i64(0)))
 		case "typeIs":
